@@ -9,6 +9,7 @@ agree.  The "all programs" axis is only sampled (feature fragments)."""
 
 import json
 import os
+import re
 import subprocess
 import sys
 
@@ -45,7 +46,7 @@ EXPECTED_PROBES = ("module-file-reloaded-by-later-process", "modtemplate", "mako
 
 ENC = {"utf8": "utf-8", "latin1": "latin-1", "cp1251": "cp1251", "ascii": "ascii"}
 DECO = {"utf8": "grüß€Ж", "latin1": "grüßé", "cp1251": "ЖивоЯ", "ascii": "plain"}
-CTX = {"x": "X1", "y": "<b>&amp;", "dflt": "DF", "z": "Zz", "a1": "A1", "a2": "A2", "a3": "A3", "a4": "A4", "a5": "A5"}
+CTX = {"x": "X1", "y": "<b>&amp;", "dflt": "DF", "z": "Zz", "a1": "A1", "a2": "A2", "a3": "A3", "a4": "A4", "a5": "A5", "e": ""}
 
 
 # ---------------------------------------------------------------- generator
@@ -61,7 +62,8 @@ def gen_program(rng, k, uri, enc):
     feats = []
     n = rng.randint(2, 7)
     pool = ["expr", "modcode", "pycode", "defdefault", "nesteddefault", "block", "callcontent", "include", "namespace", "nsimport",
-            "pageargs", "control", "text", "manynames", "shadow", "capture", "nesteddefault", "defdefault"]
+            "pageargs", "control", "text", "manynames", "shadow", "capture", "nesteddefault", "defdefault", "nsoverlap", "falsyargs",
+            "falsyargs", "nsoverlap"]
     chosen = rng.sample(pool, min(n, len(pool)))
     inherit = rng.random() < 0.25
     j = 0
@@ -121,6 +123,19 @@ def gen_program(rng, k, uri, enc):
             names.append(nm)
             defs.append('<%%def name="%s(x)">S(${x}|${z})</%%def>' % nm)
             body.append("${%s('arg')}" % nm)
+        elif f == "nsoverlap":
+            # several namespaces importing the same name: the last declared one wins
+            parts = ""
+            for q in ("alpha", "beta", "gamma"):
+                parts += '<%%namespace name="%s%d" import="shared%d"><%%def name="shared%d()">%s</%%def></%%namespace>' % (q, j, j, j, q)
+            body.append(parts + "NS[${shared%d()}]" % j)
+        elif f == "falsyargs":
+            # a def whose arguments all exist in the context, one of them falsy: get_def(name).render(**ctx)
+            # must give what the def gives when called with those values inside the template
+            nm = "fz%d" % j
+            names.append(nm)
+            defs.append('<%%def name="%s(x, e=\'de\', z=\'dz\')">[${x}|${e}|${z}]</%%def>' % nm)
+            body.append("<<%s>>${%s(x, e, z)}<</%s>>" % (nm, nm, nm))
         elif f == "capture":
             nm = "cp%d" % j
             names.append(nm)
@@ -353,6 +368,17 @@ def execute(trace, root):
                         flag("path-mismatch", "%s: %s on %s gives %s, %s on %s gives %s" % (uri, "render" if other is base else name, rtag,
                                                                                          _short(other), name, tag, _short(r)),
                              "%s~%s" % (ro["path"] + ("" if other is base else ""), o["path"] + ":" + name.split(":")[0]))
+            # a def rendered through get_def(name).render(**ctx) vs the same def called inside the template
+            full = o["renders"]["render"]
+            if full["status"] == "ok":
+                for name, r in sorted(o["renders"].items()):
+                    if not name.startswith("get_def:fz"):
+                        continue
+                    dn = name.split(":", 1)[1]
+                    m = re.search(r"<<%s>>(.*?)<</%s>>" % (dn, dn), full["text"], re.S)
+                    if m and _norm(r) != ("ok", m.group(1)):
+                        flag("path-mismatch", "%s on %s: get_def(%r).render(**ctx) gives %s, the def called with the same values inside the template gives %r"
+                             % (uri, tag, dn, _short(r), m.group(1)), "render~get_def")
             # source / code / defs
             info = o["info"]
             if info.get("source") != written:
